@@ -1,0 +1,87 @@
+// SPDX-FileCopyrightText: 2026 The Pion community <https://pion.ly>
+// SPDX-License-Identifier: MIT
+
+//go:build verif
+
+package client
+
+import "sort"
+
+// This file is compiled only with the `verif` build tag. It adds read-only observation
+// hooks for the external runtime-verification harness; it changes no behaviour.
+
+// VerifLockFree reports whether the map's mutex can be taken right now.
+func (m *TransactionMap) VerifLockFree() bool {
+	if !m.mutex.TryLock() {
+		return false
+	}
+	m.mutex.Unlock()
+
+	return true
+}
+
+// VerifBinding is one entry of the client's channel binding table.
+type VerifBinding struct {
+	Number uint16
+	Addr   string
+	State  int
+	OK     bool
+}
+
+// VerifBindings returns the binding table; ok=false if its mutex is held.
+func (c *UDPConn) VerifBindings() (out []VerifBinding, consistent bool, ok bool) {
+	mgr := c.bindingMgr
+	if !mgr.mutex.TryRLock() {
+		return nil, false, false
+	}
+	defer mgr.mutex.RUnlock()
+
+	consistent = len(mgr.chanMap) == len(mgr.addrMap)
+	for n, b := range mgr.chanMap {
+		if b.number != n || mgr.addrMap[b.addr.String()] != b {
+			consistent = false
+		}
+		out = append(out, VerifBinding{Number: n, Addr: b.addr.String(), State: int(b.state()), OK: b.ok()})
+	}
+	sort.Slice(out, func(i, j int) bool { return out[i].Number < out[j].Number })
+
+	return out, consistent, true
+}
+
+// VerifPermissions returns the IPs in the client's permission table and whether each is permitted.
+func (a *allocation) VerifPermissions() (out map[string]bool, ok bool) {
+	if !a.permMap.mutex.TryRLock() {
+		return nil, false
+	}
+	defer a.permMap.mutex.RUnlock()
+
+	out = map[string]bool{}
+	for k, p := range a.permMap.permMap {
+		out[k] = p.state() == permStatePermitted
+	}
+
+	return out, true
+}
+
+// VerifReadQueueLen returns the number of inbound datagrams queued for ReadFrom.
+func (c *UDPConn) VerifReadQueueLen() int { return len(c.readCh) }
+
+// VerifConnAttemptQueueLen returns the number of queued ConnectionAttempt indications.
+func (a *TCPAllocation) VerifConnAttemptQueueLen() int { return len(a.connAttemptCh) }
+
+// VerifLocksHeld names allocation-level mutexes that cannot be taken right now.
+func (a *allocation) VerifLocksHeld() []string {
+	var held []string
+	if a.mutex.TryLock() {
+		a.mutex.Unlock()
+	} else {
+		held = append(held, "allocation.mutex")
+	}
+	if a.permMap.mutex.TryLock() {
+		a.permMap.mutex.Unlock()
+	} else {
+		held = append(held, "permissionMap.mutex")
+	}
+
+	return held
+}
